@@ -46,6 +46,7 @@ EXPLANATION = (
     "ties that system to the real server (counters read from the real AvailableConnections objects after every "
     "event of every cut) and evaluates the property itself on the implementation from wire observations."
 )
+GENERATED_OBLIGATIONS = ["Server.replyWriterFinishesInFinally / replyWriterDrainsOnFailure / replySkipsDeadWriter (response_writer and connection.response: join_cannot_hang)"]
 ASSUMPTIONS = [
     "shipped MemoryUserManager: get_user / notify_logout do not suspend, so greeting(), user() and the finally block "
     "update the counters atomically with respect to other sessions (a custom user manager that awaits is outside C10)",
